@@ -12,6 +12,12 @@ CHECKS = {
  'C03': dict(level='exploration', technique='runtime monitor: deterministic bytecode-level pre-emption scheduler (sys.monitoring INSTRUCTION) + recorded histories + linearizability checker; free-running stress threads',
    text='Small multi-threaded programs run under a baton-passing scheduler that can switch threads at every bytecode boundary inside cacheutils (systematic single pre-emption at every event, sampled/systematic double pre-emptions, random 3-switch schedules) plus free-running stress threads; every recorded history with the final contents and probed eviction order is checked for linearizability against the sequential reference cache; deadlock and non-termination are detected on logical steps. Bounded exploration (<=3 threads, <=4 ops, <=3 pre-emptions).',
    note='Trusted: checks/sched.py, checks/cachemodel.py. The lock the cache created is wrapped, not replaced. Known finding: dict-inherited len/in/iteration take no lock.', ref='3/C03'),
+ 'C04': dict(level='fault_enumeration', technique='runtime monitor: crash injection at every file-system event (fork + os._exit behind an os-module interposer; strace SIGKILL injection per syscall) + state oracle on the directory + order oracle on the event log / syscall trace',
+   text='For each scenario the save is killed immediately before every file-system call and every write/flush/close on the part file (exhaustive per scenario), and after the last; the destination must then hold exactly the old or exactly the complete new content. An order oracle on the interposer log and on real strace traces decides that all data was written, flushed, fsynced and the file closed before one rename/link published it, and that the destination path is never written, truncated or unlinked.',
+   note='No real power loss: durability is decided on syscall order. Torn single writes are not produced. Layer B sees only calls through fileutils\' os module; strace (layer A) covers bypasses for a subset of scenarios; if ptrace is unavailable the evidence says strace_available=false and the verdict rests on layer B.', ref='3/C04'),
+ 'C05': dict(level='fault_enumeration', technique='runtime monitor: OSError injection at every file-system / file-object event (single faults exhaustive per configuration, pairs for small ones; strace errno injection) + outcome-dependent post-condition oracle + retry',
+   text='Every single injected failure (and pairs) at each call of the save, across the configuration product of overwrite/overwrite_part/rm_part_on_exc/text_mode/file_perms/umask/initial destination and part file/body behaviour; post-conditions: exception reaches the caller unless the new content is completely published, destination bytes and mode unchanged without publication, no own part file left with rm_part_on_exc, foreign part file untouched without overwrite_part, permissions explicit > replaced > umask, immediate fault-free retry succeeds.',
+   note='Faults are raised instead of the call; a failing close still releases the fd. A left-over part file is accepted only when the injected fault hit the clean-up unlink itself. fdopen and the best-effort fcntl calls are not fault targets.', ref='3/C05'),
 }
 NA_REASON = 'check not built yet in this session (work in progress; see DESIGN.md section 3 for the planned monitor)'
 def main():
